@@ -1623,6 +1623,14 @@ def c13():
     model_check("MC_Pool", dict(base, Inst="{1, 2, 3}", NPages=1, DoublePutOnError="TRUE"), ["NonInterference"], tag="mcpoolneg2", expect_violation="NonInterference")
     ck.cov["negative_controls"] = ["MC_Pool with PutBeforeBodyWrite: NonInterference violated as required",
                                    "MC_Pool with DoublePutOnError (instance 1's header write may fail): NonInterference violated as required"]
+    # state that outlives an instance without being handed over: a process-wide, lazily grown table every instance reads
+    sb = {"Inst": "{1, 2, 3}", "Vals": "{0, 1}", "MaxRun": 3, "MaxRuns": 2, "AliasFirstRun": "FALSE", "GrowInPlace": "FALSE"}
+    r = model_check("MC_SharedTable", sb, ["TypeOK", "OwnOutput", "TableTruthful"], workers=8, tag="mcshared", timeout=1500)
+    ck.cov["states"], ck.cov["transitions"] = ck.cov["states"] + r["distinct"], ck.cov["transitions"] + r["states"]
+    model_check("MC_SharedTable", dict(sb, AliasFirstRun="TRUE"), ["OwnOutput"], workers=8, tag="mcsharedneg1", expect_violation="OwnOutput")
+    model_check("MC_SharedTable", dict(sb, GrowInPlace="TRUE", Inst="{1, 2}"), ["OwnOutput"], workers=8, tag="mcsharedneg2", expect_violation="OwnOutput")
+    ck.cov["negative_controls"] += ["MC_SharedTable with AliasFirstRun (the first run's output is the table's prefix, the next run is appended in place): OwnOutput violated as required",
+                                    "MC_SharedTable with GrowInPlace (growing an entry refreshes the others): OwnOutput violated as required"]
     progs = build_programs(fixed_programs(["Document", "AllTypes", "BoolHeavy"] if q else ["Document", "AllTypes", "BoolHeavy", "Person", "Deep"]))
     ok = usable(progs)
     load_schemas(ok)
